@@ -195,6 +195,31 @@ def _r5src(n):
     return "/tmp/mut5/%s/_out/%s" % (n[2:4], n[4])
 SRC_OVERRIDE.update({n: _r5src(n) for n in NEEDS if n.startswith("R5")})
 
+# round 6: agents got the list of ~150 earlier ideas and were asked for new KINDS or new trigger classes; ids R6k<n><A|B|C>
+NEEDS.update({
+ "R6k1A": ("C02", "mul_precomp_256 adds table entries through a mixed addition without the equal-operand (doubling) branch", "a scalar for which the 8x32 comb ladder meets accumulator == table entry (mod r): k = r + 2*T_b with b the parity vector of k's own columns (one value below 2^255)"),
+ "R6k1B": ("C02", "precomp_256 returns early when pre[1] == self ('table already built')", "a destination buffer pre-filled with the base point itself (not its table)"),
+ "R6k1C": ("C02", "mul_precomp_3 normalises its 16-entry table and adds entries without a doubling branch", "k = r + 2(1 + 2^128) or 2r + 2*2^64: the 4x64 comb ladder meets accumulator == table entry"),
+ "R6k2A": ("C11", "miller_loop returns 1 early when the iterator's size_hint lower bound is 0", "the pairs handed over through filter / skip_while / from_fn / any iterator with an uninformative size_hint"),
+ "R6k2B": ("C09", "Fq12::inverse 'norm one => conjugate' fast path tests c0^2 - c1^2 == 1 (non-residue forgotten)", "elements with c0^2 - c1^2 = 1 in Fq6 (e.g. c0 = 0, c1^2 = -1, or c0 = (t+1/t)/2, c1 = (t-1/t)/2)"),
+ "R6k2C": ("C11", "G2Prepared gets a manual Clone whose clone_from copies the coefficients but not the identity flag", "a prepared slot overwritten in place (clone_from) by a source whose identity-ness differs"),
+ "R6k3A": ("C19", "point readers pre-check the two leading bytes of the first coordinate with < 0x1a01 instead of <=", "a subgroup point whose leading coordinate starts with 1a 01 (1 in 95000; found by search: [73037]g1, [25983]g2)"),
+ "R6k3B": ("C19", "Fq12::deserialize wraps the caller's reader in a 48-byte BufReader", "a reader returning short reads of a size that does not divide 576, with data following the element: bytes beyond 576 are consumed"),
+ "R6k3C": ("C19", "Fr / Fq12 deserialize gain a limb-wise pre-check that forgets the early accept on a smaller limb", "a canonical value with the modulus' top limb, a smaller next limb and a larger lower limb"),
+ "R6k4A": ("C13", "XMD: ell and the abort guard are computed from the length truncated to u16", "a request >= 65536 bytes whose low 16 bits are at most 255 blocks (65536, 2^20, ...)"),
+ "R6k4B": ("C15", "G2 osswu_map sign fix uses y.c0.sgn0() instead of y.sgn0()", "an input whose SWU image has a purely imaginary y (y.c0 = 0) with odd c1"),
+ "R6k4C": ("C13", "XOF expander gains an RFC-style guard that rejects the empty tag", "a SHAKE expander with the empty tag"),
+ "R6k5A": ("C20", "Fq12::serialize assembles its image in a process-wide Mutex<Vec<u8>> that stays locked during writer.write_all", "a writer that serialises another Fq12 inside write() (self-deadlock), or that blocks on another thread doing so"),
+ "R6k5B": ("C19", "Fq12::serialize builds its image in a thread-local buffer cleared only after a successful write_all", "a serialize whose writer returns an error, then the next Fq12::serialize on that thread: 1152 bytes"),
+ "R6k5C": ("C04", "G2Compressed::into_affine keeps a one-entry thread-local memo initialised to (96 zero bytes -> identity)", "the all-zero 96-byte string as the first checked G2 decompression on a thread"),
+ "R6k6A": ("C13", "XMD: len_in_bytes shadowed by a u16 copy before ell and the guard", "a request >= 65536 bytes with a small residue mod 65536"),
+ "R6k6B": ("C10", "precomp_256 derives its piece schedule from pre.len()/2", "precomp_256 handed the rest of a longer buffer (&mut pre[j*256..]) with tables built last-first or rebuilt in place: the neighbouring table is overwritten"),
+ "R6k6C": ("C10", "sum_of_products gains a single-point fast path placed before the min-length logic", "exactly one point with an empty scalar list: panic instead of the identity"),
+})
+def _r6src(n):
+    return "/tmp/mut6/%s/_out/%s" % (n[2:4], n[4])
+SRC_OVERRIDE.update({n: _r6src(n) for n in NEEDS if n.startswith("R6")})
+
 
 def first_line(path, pat):
     try:
